@@ -29,11 +29,23 @@ def tag_table(ctx):
     return out
 
 
-def module_consts(mod):
-    """fold module level assignments in order -> env"""
+def module_consts(mod, ix=None, _depth=0):
+    """fold module level assignments in order -> env; with `ix`, names imported from other modules of the package carry the constant they have there"""
     env = {}
     ev = Evaluator(env)
     for s in mod.tree.body:
+        if ix is not None and _depth < 2 and isinstance(s, ast.ImportFrom) and s.module and s.level == 0 and s.module.startswith('singlecellmultiomics'):
+            rel = s.module.replace('.', '/') + '.py'
+            if not ix.exists(rel):
+                continue
+            try:
+                other = module_consts(ix.module(rel), ix, _depth + 1)
+            except Exception:
+                continue
+            for a in s.names:
+                if a.name in other:
+                    env[a.asname or a.name] = other[a.name]
+            continue
         if isinstance(s, ast.Assign) and len(s.targets) == 1 and isinstance(s.targets[0], ast.Name):
             try:
                 env[s.targets[0].id] = ev.ev(s.value)
@@ -362,7 +374,7 @@ def _r5_headers_by_tokens(ctx):
     is evaluated on a tag table of tokens.  False when a construct is outside the interpreted subset (the structural reading is used then)."""
     from ..consteval import run_function, Raised
     mod = ctx.ix.module(BASEDEMUX)
-    mc = {k: v for k, v in module_consts(mod).items() if v is not TOP}
+    mc = {k: v for k, v in module_consts(mod, ctx.ix).items() if v is not TOP}
     canon = ['Is', 'RN', 'Fc', 'La', 'Ti', 'CX', 'CY', 'RP', 'Fi', 'CN']
     out = []
     try:
@@ -419,14 +431,27 @@ def _identifier_by_interpretation(ctx):
     from ..consteval import run_function, Raised
     t = ctx.fn(BASEDEMUX, 'TaggedRecord.tagPysamRead')
     mod = ctx.ix.module(BASEDEMUX)
-    mc = {k: v for k, v in module_consts(mod).items() if v is not TOP}
+    mc = {k: v for k, v in module_consts(mod, ctx.ix).items() if v is not TOP}
     vals = {'BC': 'ACGT', 'RX': 'TTG', 'aA': 'GGCC', 'QT': 'eeee', 'RQ': 'aaa', 'aa': 'GGCA'}
     n = 0
+    from ..consteval import LocalFn
+    cdef = ctx.ix.cls(BASEDEMUX, 'TaggedRecord')
+    class_consts = {}
+    for st_ in cdef.body:
+        if isinstance(st_, ast.Assign) and len(st_.targets) == 1 and isinstance(st_.targets[0], ast.Name):
+            v_ = fold(st_.value, dict(mc))
+            if v_ is not TOP:
+                class_consts['self.' + st_.targets[0].id] = v_
+    # private helpers of the record (the identifier assembly may live in one)
+    helpers = {m_.name: m_ for m_ in cdef.body if isinstance(m_, ast.FunctionDef) and m_.name.startswith('_') and not m_.name.startswith('__') and m_.name not in ('_parse_illumina_header',)}
     try:
         for present in itertools.product((False, True), repeat=len(vals)):
             tags = {k: v for (k, v), p_ in zip(vals.items(), present) if p_}
             tags['LY'] = 'lib'
             env = dict(mc)
+            env.update(class_consts)
+            for mn_, md_ in helpers.items():
+                env.setdefault('self.' + mn_, LocalFn(md_, env, bound='<self>'))
             env['self.tags'] = dict(tags)
             env['self.tagDefinitions'] = {}
             rd = {}
@@ -487,6 +512,9 @@ def _r5_identifier(ctx):
 
 def _r5_identifier_structural(ctx, t):
     lst = [s for s in t.body if isinstance(s, ast.Assign) and isinstance(s.value, ast.List) and all(isinstance(e, ast.Tuple) for e in s.value.elts) and s.value.elts]
+    if not lst:
+        ctx.emit('C04-R5', False, BASEDEMUX, t, 'tagPysamRead: the table of identifying tags was not found and the method is outside the interpreted subset', key='MI-components', undecided=True)
+        return
     order = [e.elts[0].value for e in lst[0].value.elts if isinstance(e.elts[0], ast.Constant)] if lst else []
     req = [(e.elts[0].value, src(e.elts[2])) for e in lst[0].value.elts] if lst else []
     ok = order == ['BC', 'RX', 'aA']
